@@ -115,7 +115,7 @@ def build_extractor_config(flavour, cfg, files, units, bare=()):
             'sig_contract': sig_contract_text(u), 'attrs': u['attrs'],
             'loops': u['loops'], 'closures': u['closures'], 'hints': u['hints'],
             'body_open': u['body_open'], 'inherent': u['inherent'], 'drop_body': u['assumed'],
-            'str_slices': u['strslice'], 'keep_generics': u['keep_generics'], 'try_conv': u['tryconv'],
+            'str_slices': [] if u['id'] in bare else u['strslice'], 'keep_generics': u['keep_generics'], 'try_conv': u['tryconv'],
             'bare': u['id'] in bare,
         })
     return {
@@ -536,7 +536,7 @@ def full_run(flavour, cfg, files, units, rlimit=40, seed=0):
     auto-included const/static/type left out, when the compiler or Verus rejects it ("opaque")"""
     bare = set()
     opaque = set()
-    annotated = {u['id'] for u in units if u['closures'] or u['loops'] or u['hints']}
+    annotated = {u['id'] for u in units if u['closures'] or u['loops'] or u['hints'] or u['strslice'] or u['body_open']}
     for _ in range(10):
         ext, active = run_extractor(flavour, cfg, files, units, bare=tuple(bare), opaque=tuple(sorted(opaque)))
         text, meta, gen, res, weak = verify_with_auto_weak(flavour, cfg, files, active, ext, rlimit, seed)
